@@ -96,12 +96,10 @@ def mapStep (ifun ofun : Nat → Nat) (i : UIn) : UOut :=
     if i.trdy then { res := some (ofun i.tret), tcall := some (ifun a) }
     else { res := none, tcall := none }
 
-/-- how the value returned by the `condition` function is interpreted:
-    plain mode `m.If(v)` = `v ≠ 0` (transformers.py:254);
-    `use_condition` mode assigns it to a 1-bit signal, i.e. keeps the least significant bit
-    (transformers.py:248-249) -/
-def condHolds (useCond : Bool) (v : Nat) : Bool :=
-  if useCond then v % 2 == 1 else v != 0
+/-- how the value returned by the `condition` function is interpreted, in both modes: non-zero is
+    true.  Plain mode: `m.If(v)` (transformers.py:254); `use_condition` mode:
+    `cond.eq(Value.cast(v).bool())` (transformers.py:248-249). -/
+def condHolds (v : Nat) : Bool := v != 0
 
 /-- MethodFilter (transformers.py:239-258).
     Plain mode: the call sits under `m.If`, the target is still required to be ready.
@@ -111,7 +109,7 @@ def filterStep (useCond : Bool) (cond : Nat → Nat) (dflt : Nat) (i : UIn) : UO
   match i.call with
   | none => { res := none, tcall := none }
   | some a =>
-    let c := condHolds useCond (cond a)
+    let c := condHolds (cond a)
     if useCond then
       if c then
         if i.trdy then { res := some i.tret, tcall := some a } else { res := none, tcall := none }
